@@ -848,6 +848,12 @@ func (te *TemplateEngine) cloneDocument(source *Document) *Document {
 	// 源文档是打开的文件时，副本沿用其打开时的样式状态：复制过来的 styles.xml 在保存时同样
 	// 只补充之后新增/修改的样式，而不是原样冻结
 	doc.stylesAtOpen = source.stylesAtOpen
+	if len(source.stylesWritten) > 0 {
+		doc.stylesWritten = make(map[string]string, len(source.stylesWritten))
+		for id, form := range source.stylesWritten {
+			doc.stylesWritten[id] = form
+		}
+	}
 
 	// 复制文档关系（包含页眉页脚引用）
 	if source.documentRelationships != nil {
